@@ -20,7 +20,7 @@ def levels(tier):
     if tier == "quick":
         return [
             {"name": "n2", "shapes": [[1, 2, 3]], "n": 2, "alphabet": edits},
-            {"name": "n3", "shapes": [[1, 2, 2]], "n": 3, "alphabet": ["we", "delwe", "addprefix", "moveprefix"]},
+            {"name": "n3", "shapes": [[1, 2, 2]], "n": 3, "alphabet": ["we", "delwe", "addprefix"]},
             {"name": "refused", "shapes": [[1, 2, 2]], "n": 2, "prelude": [["we", [[1, 1], [2, 2]]]],
              "alphabet": ["we", "addprefix", "delbad", "deldup", "rmforeign"]},
             {"name": "auto-n2", "typed": TPOOL, "default": "domain", "anchored": (1, 3, "path1"), "n": 2, "alphabet": ["we", "page"],
